@@ -1,17 +1,73 @@
 """Java code model suite: identifier + full pass (C01, C02, C07 listener part)."""
 
 TRACE = ("JavaModel_Trace", "JavaModel_Trace.cfg")
+PROPS = ["C02_ReceiverResolved", "C07_ScopeReset"]
 
 
 def plan(pid, tier, seed):
     quick = tier == "quick"
+    mc = []
+    if pid in ("C02", "C07", ""):
+        if quick:
+            mc = [{"module": "JavaCalls", "cfg": "JavaCalls_MC_quick.cfg", "emit": True, "sample": 1200 if pid != "C07" else 800,
+                   "properties": PROPS, "timeout": 600, "pid": pid}]
+        else:
+            mc = [{"module": "JavaCalls", "cfg": "JavaCalls_MC_thorough.cfg", "emit": True, "sample": 30000,
+                   "properties": PROPS, "timeout": 1800, "pid": pid}]
     return {
         "harness": "javamodel",
-        "mc": [],
+        "mc": mc,
         "gen": [],
-        "rand": 300 if quick else 8000,
+        "rand": (300 if quick else 8000),
         "trace": TRACE,
     }
+
+
+def _call(recv_kind, recv):
+    return {"k": "expr", "type": "", "name": "", "then": [], "els": [], "cases": [],
+            "e": {"k": "call", "text": "", "recvKind": recv_kind, "recv": recv, "callee": "m", "args": [], "type": ""}}
+
+
+def case_from_tlc(obj, h, g):
+    """TLC emits the callback history of the JavaCalls Machine; turn it into abstract files."""
+    files = []
+    cur = None
+    meth = None
+    for ev in obj["events"]:
+        e = ev["e"]
+        if e == "file":
+            cur = {"id": "f%d" % (len(files) + 1), "pathKind": "main", "dirs": "p", "pkg": "p",
+                   "imports": [dict(pkg=i["pkg"], name=i["name"]) for i in ev["imports"]],
+                   "unit": {"kind": "class", "name": ev["cls"], "tparams": "", "ext": "", "extq": "", "impls": [], "anns": [], "members": []}}
+            files.append(cur)
+            meth = None
+        elif e == "field":
+            cur["unit"]["members"].append({"kind": "field", "name": ev["name"], "type": ev["type"], "params": [], "mods": ["private"],
+                                           "anns": [], "generic": "", "body": [], "sameLine": False})
+        elif e == "method":
+            n = sum(1 for m in cur["unit"]["members"] if m["kind"] == "method")
+            meth = {"kind": "method", "name": "m%d" % (n + 1), "type": "void", "params": [dict(type=p["type"], name=p["name"]) for p in ev["params"]],
+                    "mods": ["public"], "anns": [], "generic": "", "body": [], "sameLine": False}
+            cur["unit"]["members"].append(meth)
+        elif e == "endmethod":
+            meth = None
+        elif e == "decl":
+            meth["body"].append({"k": "decl", "type": ev["type"], "name": ev["name"], "then": [], "els": [], "cases": []})
+        elif e == "assign":
+            meth["body"].append({"k": "assign", "type": "", "name": ev["name"], "then": [], "els": [], "cases": [],
+                                 "e": {"k": "new", "text": "", "recvKind": "", "recv": "", "callee": "", "args": [], "type": ev["type"]}})
+        elif e == "call":
+            meth["body"].append(_call("var", ev["recv"]))
+        elif e == "unq":
+            meth["body"].append(_call("none", ""))
+    files.append({"id": "bar", "pathKind": "main", "dirs": "p", "pkg": "p", "imports": [],
+                  "unit": {"kind": "class", "name": "Bar", "tparams": "", "ext": "", "extq": "", "impls": [], "anns": [], "members": []}})
+    n = len(files)
+    runs = []
+    if g.get("pid") == "C07" or int(h[:2], 16) % 4 == 0:
+        idx = list(range(1, n + 1))
+        runs = [idx, idx[::-1], idx[:1], idx]
+    return {"case": "tlc-" + h, "files": files, "layout": int(h[:6], 16) % 10000, "runs": runs}
 
 
 def nontrivial(rec):
